@@ -27,6 +27,7 @@ func Mk3() string               { return "" }
 func Mk4() string               { return "" }
 func Probe(id int, x any)       {}
 func Enter(name string)         {}
+func D(k int)                   {}
 `
 
 // NativeRT is the stub package of the native rendering: token-carrying data, valuation-driven Cond, deep sink walk.
@@ -79,6 +80,12 @@ func Sink3(x any)               { record("3", x) }
 func Sink4(x any)               { record("4", x) }
 func Probe(id int, x any)       {}
 func Enter(name string)         {}
+
+var dlog []string
+var logs = map[string]bool{}
+
+// D is the deferred function of the C16 family: it logs its id when it runs.
+func D(k int) { dlog = append(dlog, fmt.Sprint(k)) }
 
 // Sanitize1 returns a token-free string.
 func Sanitize1(x string) string { return "clean" }
@@ -191,18 +198,25 @@ type Result struct {
 	Branches int
 	Panics   int
 	Capped   bool
+	Logs     []string // C16: distinct deferred-run logs ("3,1" = D(3) ran first), "!p" suffix when the run panicked
 }
 
 func runOnce(e Entry, prefix []bool) (n int, panicked bool) {
 	vv = prefix
 	pos = 0
 	valid = map[string]bool{}
+	dlog = nil
 	e.Reset()
 	defer func() {
 		if r := recover(); r != nil {
 			panicked = true
 		}
 		n = pos
+		l := strings.Join(dlog, ",")
+		if panicked {
+			l += "!p"
+		}
+		logs[l] = true
 	}()
 	e.Main()
 	return pos, false
@@ -211,6 +225,7 @@ func runOnce(e Entry, prefix []bool) (n int, panicked bool) {
 // Explore runs every valuation of the program's Cond() calls (DFS, default false, horizon Horizon).
 func Explore(e Entry) Result {
 	flows = map[string]bool{}
+	logs = map[string]bool{}
 	res := Result{Name: e.Name}
 	var rec func(prefix []bool)
 	rec = func(prefix []bool) {
@@ -236,8 +251,17 @@ func Explore(e Entry) Result {
 		res.Flows = append(res.Flows, f)
 	}
 	sort.Strings(res.Flows)
+	if WantLogs {
+		for l := range logs {
+			res.Logs = append(res.Logs, l)
+		}
+		sort.Strings(res.Logs)
+	}
 	return res
 }
+
+// WantLogs makes Explore report the deferred-run logs.
+var WantLogs = false
 `
 
 // AnalysisMain is appended to a program rendered for analysis.
